@@ -579,16 +579,26 @@ class atom(boolean.AndRestriction):
         # package-like object to pass to these functions (all that is
         # needed is a version and revision attr).
 
+        # A glob carrying a revision (=cat/pkg-1-r2*) has no version
+        # component left to vary, it matches just the version it names:
+        if self.op == "=*" and self.revision:
+            return atom(f"={self.cpvstr}").intersects(other)
+        if other.op == "=*" and other.revision:
+            return self.intersects(atom(f"={other.cpvstr}"))
+
+        # Globs match on version component boundaries (1* does not match 10).
+        glob_match = restricts.ver_glob_match
+
         # If one of us is an exact match we intersect if the other matches it:
         if self.op == "=":
             if other.op == "=*":
-                return self.fullver.startswith(other.fullver)
+                return glob_match(self.fullver, other.fullver)
             return restricts.VersionMatch(
                 other.op, other.version, other.revision
             ).match(self)
         if other.op == "=":
             if self.op == "=*":
-                return other.fullver.startswith(self.fullver)
+                return glob_match(other.fullver, self.fullver)
             return restricts.VersionMatch(self.op, self.version, self.revision).match(
                 other
             )
@@ -599,16 +609,16 @@ class atom(boolean.AndRestriction):
 
         # If we are both glob matches we match if one of us matches the other.
         if self.op == other.op == "=*":
-            return self.fullver.startswith(other.fullver) or other.fullver.startswith(
-                self.fullver
+            return glob_match(self.fullver, other.fullver) or glob_match(
+                other.fullver, self.fullver
             )
 
         # If one of us is a glob match and the other a ~ we match if the glob
-        # matches the ~ (ignoring a revision on the glob):
+        # matches the ~:
         if self.op == "=*" and other.op == "~":
-            return other.fullver.startswith(self.version)
+            return glob_match(other.fullver, self.fullver)
         if other.op == "=*" and self.op == "~":
-            return self.fullver.startswith(other.version)
+            return glob_match(self.fullver, other.fullver)
 
         # If we get here at least one of us is a <, <=, > or >=:
         if self.op in ("<", "<=", ">", ">="):
@@ -668,12 +678,7 @@ class atom(boolean.AndRestriction):
                 # package smaller than ranged.fullver and
                 # other.fullver that they both match.
 
-                # If other.revision is not None or 0 then other does not match
-                # anything smaller than its own fullver:
-                if other.revision:
-                    return False
-
-                # If other.revision is None or 0 then we can always
+                # We can always
                 # construct a package smaller than other.fullver by
                 # tagging e.g. an _alpha1 on, since
                 # cat/pkg_beta2_alpha1_alpha1 is a valid version.
@@ -681,7 +686,7 @@ class atom(boolean.AndRestriction):
                 # If and only if other also matches ranged then
                 # ranged will also match one of those smaller packages.
                 # XXX (I think, need to try harder to verify this.)
-                return ranged.fullver.startswith(other.version)
+                return glob_match(ranged.fullver, other.fullver)
             else:
                 # Remaining cases where this intersects: there is a
                 # package greater than ranged.fullver and
@@ -692,7 +697,7 @@ class atom(boolean.AndRestriction):
                 # If and only if other also matches ranged then
                 # ranged will match such a larger package
                 # XXX (I think, need to try harder to verify this.)
-                return ranged.fullver.startswith(other.version)
+                return glob_match(ranged.fullver, other.fullver)
 
         # Handled all possible ops.
         raise NotImplementedError(
